@@ -889,6 +889,10 @@ func (e *Executor) Execute(ctx context.Context, m File) (err error) {
 		}
 	}
 	// In case the file was applied successfully, clean out the partial revisions.
+	// The pending part of a partially applied file may have been edited and the
+	// number of statements may differ from the first attempt. Keep the total in
+	// sync, otherwise the revision is considered partially applied forever.
+	r.Total = len(stmts)
 	r.PartialHashes = nil
 	r.done()
 	return
